@@ -407,6 +407,20 @@ func runCLILocal(c *harness.Ctx, sc scenario, s, slot int) {
 			}
 		}
 	}
+	if !full && !indexToFull && brokenPrefix == "" && rng.Intn(2) == 0 {
+		// a history: an earlier run of the same command into the same store died (SIGKILL) between writing the
+		// temporary file of its k-th chunk and renaming it. What it left behind must not keep this run from storing
+		// everything it reports as stored.
+		k := 1 + rng.Intn(len(sc.idx.Chunks)+1)
+		first := exec.Command(cli, args...)
+		first.Env = append(os.Environ(), "HOME="+dir, fmt.Sprintf("VERIF_FAILPOINTS=local.store.beforeRename=kill@%d", k))
+		if ferr := first.Run(); ferr != nil {
+			c.Count("cli_local_runs_after_a_killed_run", 1)
+		}
+		if cmdName == "make" || cmdName == "tar" {
+			os.Remove(idxFile)
+		}
+	}
 	cmd := exec.Command(cli, args...)
 	cmd.Env = append(os.Environ(), "HOME="+dir)
 	var stderr bytes.Buffer
